@@ -96,7 +96,7 @@ Record FRel (p : fpend) (st : wstate) (m : m14) : Prop := {
   f_sendret : forall t q x, tcur (thr st t) = Some (CPSend q x) -> tret (thr st t) = RUnit;
   f_dropcmd : forall t q, tcur (thr st t) = Some (CPDrop q) -> p <> FDropBad t q ->
               (exists m0, In (ILock m0 (LPqCancelSet q)) (tcont (thr st t))) \/ pcancel (pps st q) = true;
-  f_own_cs : forall t m0 q, In (ILock m0 (LPqCancelSet q)) (tcont (thr st t)) -> tcur (thr st t) = Some (CPDrop q);
+  f_own_cs : forall t m0 q, In (ILock m0 (LPqCancelSet q)) (tcont (thr st t)) -> tcur (thr st t) = Some (CPDrop q) /\ pexists (pps st q) = true;
   f_late_cur : forall t, is_late m t -> exists c, tcur (thr st t) = Some c /\ wcmd c;
   f_own_ret : forall t m0 v, In (IUnlock m0 (URet v)) (tcont (thr st t)) ->
               (forall q x, tcur (thr st t) <> Some (CPSend q x)) /\ (forall z, v = RVal z -> tcur (thr st t) = Some CRecv /\ wkr st t);
@@ -286,7 +286,7 @@ Section FStep.
   Hypothesis O_sendret : forall q x, tcur (thr st' t) = Some (CPSend q x) -> tret (thr st' t) = RUnit.
   Hypothesis O_dropcmd : forall q, tcur (thr st' t) = Some (CPDrop q) ->
     (exists m0, In (ILock m0 (LPqCancelSet q)) (tcont (thr st' t))) \/ pcancel (pps st' q) = true.
-  Hypothesis O_own_cs : forall m0 q, In (ILock m0 (LPqCancelSet q)) (tcont (thr st' t)) -> tcur (thr st' t) = Some (CPDrop q).
+  Hypothesis O_own_cs : forall m0 q, In (ILock m0 (LPqCancelSet q)) (tcont (thr st' t)) -> tcur (thr st' t) = Some (CPDrop q) /\ pexists (pps st' q) = true.
   Hypothesis O_own_ret : forall m0 v, In (IUnlock m0 (URet v)) (tcont (thr st' t)) ->
     (forall q x, tcur (thr st' t) <> Some (CPSend q x)) /\ (forall z, v = RVal z -> tcur (thr st' t) = Some CRecv /\ wkr st' t).
   Hypothesis O_own_pr : forall j, In j (tcont (thr st' t)) ->
@@ -339,7 +339,7 @@ Section FStep.
     - intros u q x Hcu. destruct (Nat.eq_dec u t) as [->|Hu]; [apply (O_sendret q x Hcu)|]. rewrite Cu in Hcu. rewrite (Htr u Hu). apply (f_sendret _ _ _ R u q x Hcu).
     - intros u q Hcu Np. destruct (Nat.eq_dec u t) as [->|Hu]; [apply (O_dropcmd q Hcu)|]. rewrite Cu in Hcu. rewrite (Co u Hu).
       destruct (f_dropcmd _ _ _ R u q Hcu Np) as [A|A]; [left; exact A|right; apply Pc; exact A].
-    - intros u m0 q Hin. destruct (Nat.eq_dec u t) as [->|Hu]; [apply (O_own_cs m0 q Hin)|]. rewrite (Co u Hu) in Hin. rewrite Cu. apply (f_own_cs _ _ _ R u m0 q Hin).
+    - intros u m0 q Hin. destruct (Nat.eq_dec u t) as [->|Hu]; [apply (O_own_cs m0 q Hin)|]. rewrite (Co u Hu) in Hin. rewrite Cu, Pe. apply (f_own_cs _ _ _ R u m0 q Hin).
     - intros u L. apply La in L. rewrite Cu. apply (f_late_cur _ _ _ R u L).
     - intros u m0 v Hin. destruct (Nat.eq_dec u t) as [->|Hu]; [apply (O_own_ret m0 v Hin)|]. rewrite (Co u Hu) in Hin. rewrite Cu. destruct (f_own_ret _ _ _ R u m0 v Hin) as [A B]. split; [exact A|]. intros z Ez. destruct (B z Ez) as [B1 B2]. split; [exact B1|apply fs_wkr; exact B2].
     - intros u j Hin. destruct (Nat.eq_dec u t) as [->|Hu]; [apply (O_own_pr j Hin)|]. rewrite (Co u Hu) in Hin. rewrite Cu, Tp. destruct (f_own_pr _ _ _ R u j Hin) as [A B]. split; [intros m0 q E; destruct (A m0 q E) as [A1 A2]; split; [apply fs_wkr; exact A1|exact A2]|intros m0 q E; destruct (B m0 q E) as [B1 B2]; split; [apply fs_wkr; exact B1|exact B2]].
@@ -447,7 +447,7 @@ Proof.
     assert (Np : p <> FDropBad t q) by (intro E; destruct (f_pdrop _ _ _ R t q E) as [_ Z0]; rewrite Hc in Z0; discriminate Z0).
     destruct (f_dropcmd _ _ _ R t q Hcu Np) as [[m0 A]|A]; [|right; exact A]. left. exists m0. rewrite Hc in A. rewrite Hc'.
     destruct A as [A|A]; [exfalso; exact (I5 m0 q A)|apply in_or_app; right; exact A].
-  - intros m0 q Hin. rewrite Cu. destruct (Inr _ Hin) as [Hj|Hj]; [exfalso; destruct (N3 _ Hj) as [_ [Z0 _]]; exact (Z0 m0 q eq_refl)|].
+  - intros m0 q Hin. rewrite Cu. destruct (Pp q) as [_ [_ [_ D0]]]. rewrite D0. destruct (Inr _ Hin) as [Hj|Hj]; [exfalso; destruct (N3 _ Hj) as [_ [Z0 _]]; exact (Z0 m0 q eq_refl)|].
     apply (f_own_cs _ _ _ R t m0 q Hj).
   - intros m0 v Hin. rewrite Cu. destruct (Inr _ Hin) as [Hj|Hj].
     + split.
@@ -503,7 +503,7 @@ Proof.
     apply (f_own_send _ _ _ R t m0 q x (Inr _ Hj)).
   - intros q x Hcu. rewrite Cu in Hcu. apply (Osr q x Hcu).
   - intros q Hcu. rewrite Cu in Hcu. destruct (Odc q Hcu) as [[m0 A]|A]; [left; exists m0; rewrite Hc'; apply in_or_app; right; exact A|right; exact A].
-  - intros m0 q Hin. rewrite Cu. destruct (Nq _ Hin) as [[Fj _]|Hj]; [exfalso; exact (proj1 (proj2 (proj2 (proj2 (proj2 (fq_facts _ Fj))))) m0 q eq_refl)|].
+  - intros m0 q Hin. rewrite Cu. destruct (Hpp q) as [_ [D0 _]]. rewrite D0. destruct (Nq _ Hin) as [[Fj _]|Hj]; [exfalso; exact (proj1 (proj2 (proj2 (proj2 (proj2 (fq_facts _ Fj))))) m0 q eq_refl)|].
     apply (f_own_cs _ _ _ R t m0 q (Inr _ Hj)).
   - intros m0 v Hin. rewrite Cu. destruct (Nq _ Hin) as [[Fj _]|Hj]; [exfalso; exact (proj1 (proj2 (proj2 (proj2 (proj2 (proj2 (fq_facts _ Fj)))))) m0 v eq_refl)|].
     destruct (f_own_ret _ _ _ R t m0 v (Inr _ Hj)) as [A B]. split; [exact A|]. intros z Ez. destruct (B z Ez) as [B1 B2]. split; [exact B1|apply Wk; exact B2].
@@ -513,3 +513,54 @@ Proof.
                                                                    |intros m0 q E; destruct (B m0 q E) as [B1 B2]; split; [apply Wk; exact B1|exact B2]].
   - intros c Hcu Wc. rewrite Cu in Hcu. rewrite Hc', prcount_app, Pz. cbn [plus]. apply (Opr c Hcu Wc).
 Qed.
+
+Lemma main_not_wkr : forall st, XInv st -> ~ wkr st main.
+Proof. intros st X [_ W]. destruct (x_main _ X) as [_ Xm]. lia. Qed.
+
+(** ** the main thread queues a message / sets the cancel flag *)
+Lemma exec_psend_F : forall p st m t m0 q x r st' ev,
+  CInv (core st) -> XInv st -> FRel p st m ->
+  tcont (thr st t) = ILock m0 (LPqSend q x) :: r -> exec_instr st t (ILock m0 (LPqSend q x)) r = (st', ev) ->
+  FRel p st' (fold_left m14r_step (evs t ev) m).
+Proof.
+  intros p st m t m0 q x r st' ev I X R Hc H.
+  destruct (f_own_send _ _ _ R t m0 q x) as [Tm Hcu]; [rewrite Hc; left; reflexivity|]. subst t.
+  destruct (exec_instr_eff _ _ _ _ _ _ I Hc H) as [F _ _ _ Htret _ _].
+  assert (Tr : forall u, tret (thr st' u) = tret (thr st u)) by (apply Htret; intros; discriminate).
+  cbn [exec_instr exec_lact] in H.
+  set (s1 := acq_mtx (set_owner st (updM (owner st) m0 (Some main))) main m0) in *.
+  set (nt := match psendq (pps s1 q) with [] => [INotify q] | _ => [] end) in *.
+  assert (Fn : forall j, In j (IUnlock (MPq q) UNone :: nt) -> fq j).
+  { intros j [<-|Hj]; [exact Logic.I|]. unfold nt in Hj. destruct (psendq (pps s1 q)); [destruct Hj as [<-|[]]; exact Logic.I|destruct Hj]. }
+  inversion H; subst st' ev; clear H.
+  assert (Pl : forall e, In e [ELock m0] -> f14_plain e) by (intros e [<-|[]]; exact Logic.I).
+  assert (Hm : mcont st = ILock m0 (LPqSend q x) :: r) by exact Hc.
+  assert (Ex : pexists (pps st q) = true).
+  { destruct (pexists (pps st q)) eqn:E; [reflexivity|exfalso]. destruct (f_noex _ _ _ R q E) as [_ [_ [_ [_ [_ [_ Z0]]]]]].
+    rewrite Hm, (spend_cons q _ r) in Z0. cbn in Z0. rewrite Z.eqb_refl in Z0. discriminate Z0. }
+  assert (Sn : forall q', spend q' (IUnlock (MPq q) UNone :: nt) = []).
+  { intro q'. unfold nt. destruct (psendq (pps s1 q)); reflexivity. }
+  match goal with |- FRel p ?S' _ => set (st' := S') end.
+  assert (Hc' : tcont (thr st' main) = (IUnlock (MPq q) UNone :: nt) ++ r) by (unfold st', nt, s1; thr_simpl).
+  assert (Mc' : mcont st' = (IUnlock (MPq q) UNone :: nt) ++ r) by exact Hc'.
+  apply (f_step_q p st st' m _ main _ r (IUnlock (MPq q) UNone :: nt) q R (m14r_fplain_fold main _ m Pl) F Hc Hc' Fn).
+  - intro q'. unfold st', s1. cbn. unfold updZ. destruct (Z.eqb_spec q' q) as [->|Nq]; cbn; (split; [reflexivity|split; [reflexivity|]]); [intro Y; exfalso; apply Y; reflexivity|intros _; split; reflexivity].
+  - right. exact Ex.
+  - unfold st', s1. cbn. unfold updZ. rewrite Z.eqb_refl. cbn. auto.
+  - intros u _. apply Tr.
+  - intro W. exfalso. exact (main_not_wkr st X W).
+  - intros q' Nq. rewrite Mc', Hm, spend_app, Sn, (spend_cons q' _ r). cbn. destruct (Z.eqb_spec q q'); [exfalso; apply Nq; auto|reflexivity].
+  - intros u W E. pose proof (f_ps _ _ _ R u W) as L. cbn zeta in L. rewrite E in L.
+    destruct (m14r_fplain_fold main [ELock m0] m Pl) as [M1 M2 M3 M4]. unfold dps in *. rewrite M1, M2.
+    assert (Hu : u <> main) by (intro Y; subst u; exact (main_not_wkr st X W)).
+    assert (Rt : rtransit (thr st' u) = rtransit (thr st u)).
+    { unfold rtransit. replace (thr st' u) with (thr st u); [reflexivity|]. unfold st', s1. thr_simpl. }
+    rewrite Rt, Mc', spend_app, Sn. cbn [app]. rewrite L, Hm, (spend_cons q _ r). cbn [spend flat_map]. rewrite Z.eqb_refl. cbn [app].
+    replace (psendq (pps st' q)) with (psendq (pps st q) ++ [x]); [rewrite <- !app_assoc; reflexivity|].
+    unfold st', s1. cbn. unfold updZ. rewrite Z.eqb_refl. reflexivity.
+  - intros c W. exfalso. exact (main_not_wkr st X W).
+  - intros q' x' Hq. rewrite Tr. apply (f_sendret _ _ _ R main q' x' Hq).
+  - intros q' Hq. rewrite Hcu in Hq. discriminate Hq.
+  - intros c Hq Wc. rewrite Hcu in Hq. inversion Hq; subst c. destruct Wc.
+Qed.
+
